@@ -128,6 +128,7 @@ def gen_cases(tier, seed):
             cases.append({'id': f'C18-{tier[0]}{seed}-{k:05d}', 'kind': 'gen',
                           'terms': terms, 'targets': tg, 'spin': spin,
                           'ops': ops, 'assump': assump,
+                          'unexpanded': ops is None and r.random() < 0.4,
                           'mseed': r.randrange(1 << 30)})
     finally:
         G.POOLS.update(saved)
@@ -150,7 +151,7 @@ def classes(x):
     return {k: sorted(v) for k, v in out.items()}
 
 
-def roundtrip(E, res, tgt, model_args, label, tags=()):
+def roundtrip(E, res, tgt, model_args, label, tags=(), check_text=True):
     """E: adcgen Expr (expanded). Returns False if a violation was recorded."""
     from adcgen import Expr, import_from_sympy_latex
     from sympy.physics.secondquant import FermionicOperator, NO
@@ -192,7 +193,7 @@ def roundtrip(E, res, tgt, model_args, label, tags=()):
             res.violation(f'{label}: value changed by print -> import: '
                           f'{s1[:300]}  ->  {s2[:300]}', tags)
             return False
-    if s1 != s2:
+    if check_text and s1 != s2:
         res.violation(f'{label}: re-printed text differs: {s1[:300]}  ->  '
                       f'{s2[:300]}', tags)
         return False
@@ -222,6 +223,13 @@ def run_case(case, res):
     a = case['assump']
     E = lib_call(Expr, e, real=a['real'], sym_tensors=a['sym_tensors'] or None,
                  antisym_tensors=a['antisym_tensors'] or None).expand()
+    if case.get('unexpanded'):
+        # extra (beyond the letter of the property): the same expression with its
+        # orbital-energy brackets left as \left(...\right)^{n}; value and kinds
+        E0 = lib_call(Expr, ir.mk_expr(case['terms']), real=a['real'],
+                      sym_tensors=a['sym_tensors'] or None,
+                      antisym_tensors=a['antisym_tensors'] or None)
+        res.count('unexpanded_roundtrips')
     tgt = [ir.mk_index(s) for s in case['targets']]
     sym = {}
     if a['real']:
@@ -246,7 +254,20 @@ def run_case(case, res):
     if any(o.get('name') == 'D' for t in case['terms'] for o in t['objs']):
         res.count('with_symbolic_denominator')
     res.observed = {'text': str(E)[:400], 'assumptions': a}
-    roundtrip(E, res, tgt, margs, 'generated')
+    if roundtrip(E, res, tgt, margs, 'generated') and case.get('unexpanded'):
+        # observation only: expanded expressions never contain bracket powers, so
+        # this shape is outside the property's quantifier (the importer fails on
+        # some of these texts on the unchanged tree)
+        from ..common import CaseResult, LibCrash
+        probe = CaseResult({'id': case['id']})
+        try:
+            roundtrip(E0, probe, tgt, margs, 'brackets not expanded',
+                      check_text=False)
+        except LibCrash:
+            res.count('unexpanded_import_raised')
+        else:
+            if probe.status == 'violation':
+                res.count('unexpanded_value_or_kind_mismatch')
 
 
 def run_pipe(case, res):
